@@ -759,6 +759,42 @@ impl Model {
                 self.push_info();
                 self.end_call(*a, pushed, *method, *outcome);
             }
+            Op::Reent { host, steps } => {
+                // flat layout: [begin marker] [steps, if the closure runs] [host effect]
+                let runs = self.closure_will_run(host);
+                match &**host {
+                    Op::LEnter { l, .. } => {
+                        // the local span is entered first, the closure then runs inside it
+                        self.enter_local(*l, None, 0, 0);
+                        let rec = matches!(self.threads[t].frames.last(), Some(Frame::Local { l: Some(_) }));
+                        if rec {
+                            for st in steps {
+                                self.apply_rec(st);
+                            }
+                        }
+                        self.push_info();
+                        if let Op::LEnter { np, k0, .. } = &**host {
+                            if rec {
+                                self.info().closures_run += 1;
+                                if let Some(Frame::Local { l: Some(l) }) = self.threads[t].frames.last().cloned() {
+                                    self.locals.get_mut(&l).unwrap().props.extend(*k0..*k0 + *np as u32);
+                                }
+                            } else {
+                                self.info().closures_lazy += 1;
+                            }
+                        }
+                    }
+                    _ => {
+                        if runs {
+                            for st in steps {
+                                self.apply_rec(st);
+                            }
+                        }
+                        self.push_info();
+                        self.apply_inner(host);
+                    }
+                }
+            }
             Op::ADrop { a } => {
                 let adm = self.adapters.get_mut(a).unwrap();
                 adm.alive = false;
@@ -767,6 +803,29 @@ impl Model {
                 }
             }
         }
+    }
+
+    /// whether the property closure of `host` is invoked in the current state
+    pub fn closure_will_run(&self, host: &Op) -> bool {
+        let t = self.cur_thread;
+        match host {
+            Op::AddProps { span, .. } => self.spans[span].inner,
+            Op::LAddProps { .. } => self.current_line(t).map(|li| self.lines[li].sampled).unwrap_or(false),
+            Op::LWithProps { .. } => matches!(self.threads[t].frames.last(), Some(Frame::Local { l: Some(_) })),
+            Op::Child { parents, single, .. } => {
+                if *single {
+                    self.spans[&parents[0]].inner
+                } else {
+                    true
+                }
+            }
+            Op::ChildLocal { .. } => self.current_token(t).is_some(),
+            _ => false,
+        }
+    }
+
+    pub fn set_thread(&mut self, t: usize) {
+        self.cur_thread = t;
     }
 
     fn begin_call(&mut self, a: u32) -> usize {
@@ -804,6 +863,26 @@ impl Model {
             if let Some(s) = adm.span.take() {
                 self.finish_span(s);
             }
+        }
+    }
+
+    /// For the generator: the state in which the closure of `host` runs, on a scratch copy of the
+    /// model. Returns whether the closure runs at all.
+    pub fn scratch_begin_reent(&mut self, t: usize, host: &Op) -> bool {
+        self.cur_thread = t;
+        self.push_info();
+        match host {
+            Op::LEnter { l, .. } => {
+                self.enter_local(*l, None, 0, 0);
+                matches!(self.threads[t].frames.last(), Some(Frame::Local { l: Some(_) }))
+            }
+            Op::AddProps { span, .. } => {
+                let runs = self.spans[span].inner;
+                // the host span is in use by the call: nested steps cannot touch it
+                self.spans.get_mut(span).unwrap().held_by = Some(u32::MAX);
+                runs
+            }
+            _ => self.closure_will_run(host),
         }
     }
 
